@@ -319,9 +319,3 @@ func genUpdates() (string, error) {
 	return s, nil
 }
 
-func lowerFirst(s string) string {
-	if s == "" {
-		return s
-	}
-	return strings.ToLower(s[:1]) + s[1:]
-}
